@@ -2,3 +2,15 @@
 
 // Contracts for the deductive verifier in /verif (govc). Comment-only file.
 package listMap
+
+// loop invariants for the implementations of value.MapStorage (the contract itself is the interface contract in package value)
+//@ func (l ListMap[V]) Get
+//@   option impl-only
+//@   loop 1 invariant 0 <= rangeidx && rangeidx <= len(l) && (forall j in 0..rangeidx :: l[j].key != key)
+
+// ListMap as a value.MapStorage: a slice of key/value entries, keys pairwise different; its view (ghost functions of
+// package value) is tied to the slice contents. Both clauses are assumed (representation), see DESIGN.md C13.
+//@ representation ListMap: forall i in 0..len(self) :: forall j in 0..len(self) :: i != j ==> self[i].key != self[j].key
+//@ representation ListMap: forall i in 0..len(self) :: mhas(box(self), self[i].key) && mget(box(self), self[i].key) == self[i].value
+//@ representation ListMap: forall k string :: mhas(box(self), k) ==> (exists i in 0..len(self) :: self[i].key == k)
+//@ representation ListMap: mcard(box(self)) == len(self)
